@@ -62,6 +62,7 @@ func checkC08(c *Ctx) {
 	c08Chain(c)
 	c08Roots(c)
 	c08Callback(c)
+	c08CacheKey(c)
 	c08KeyUsage(c)
 	c08PreMaster(c)
 	c08SKE(c)
@@ -1314,4 +1315,30 @@ func c08Callback(c *Ctx) {
 		condEval = saved
 		c.Check(!r, rule, fname(f), "with VerifyPeerCertificate set, the handshake cannot succeed without calling it", "", "assuming Config.VerifyPeerCertificate != nil, the successful return at "+c.P.pos(lastPos(w))+" is reachable on a path that does not call it: the application's own check of the peer certificate (a pin, an extra policy) is skipped", lastPos(w))
 	}
+}
+
+// c08CacheKey: a resumed session skips certificate verification, so a cached session may only be offered for the NAME it
+// was verified for: with a non-empty Config.ServerName the session-cache key is that name (the peer address is only
+// the fallback). Decided on values: with len(config.ServerName) >= 1 every reachable return yields config.ServerName.
+func c08CacheKey(c *Ctx) {
+	rule := "K-C08-cachekey"
+	f := c.Fn("gmtls", "clientSessionCacheKey")
+	if f == nil {
+		c.Undecided(rule, "gmtls.clientSessionCacheKey", "session cache key", "function not found", token.NoPos)
+		return
+	}
+	ci := newCondIndex(f, paramNames(f, "serverAddr", "config"))
+	bad := token.NoPos
+	n := 0
+	ci.withInterval("len(config.ServerName)", 1, 0, func() {
+		for b := range reach([]*ssa.BasicBlock{f.Blocks[0]}, deadEdges(f)) {
+			if ret, ok := b.Instrs[len(b.Instrs)-1].(*ssa.Return); ok && len(ret.Results) == 1 {
+				n++
+				if ci.be.plain(ret.Results[0], ret).String() != "config.ServerName" {
+					bad = ret.Pos()
+				}
+			}
+		}
+	})
+	c.Check(n > 0 && bad == token.NoPos, rule, fname(f), "with a server name configured, sessions are cached under that name", "", "with a non-empty ServerName the cache key can be something else (the peer address): a session verified for one name is offered, and resumed without any certificate check, when the same address is contacted under another name", bad)
 }
